@@ -320,7 +320,7 @@ func ruleCtx(c *Ctx) {
 		ipkg := c.ssaPkg("interp")
 		for k, stage := range stages {
 			nRet++
-			e := &sengine{pkg: ipkg}
+			e := &sengine{pkg: ipkg, ctx: c}
 			seen := 0
 			e.call = func(p *spath, fr *sframe, call *ssa.Call, callee *ssa.Function, args []iv) (iv, callAction) {
 				if fr == p.stack[0] {
